@@ -2,6 +2,7 @@ import Proofs.Lemmas.SSZTree
 import Proofs.Lemmas.SSZHtrSpec
 import Proofs.Lemmas.SSZBacking
 import Proofs.Lemmas.SSZLeaf
+import Proofs.Lemmas.SSZLeafImpl
 import Proofs.Lemmas.SSZCanonical
 import Zrnt.Gen.SszFacts
 /-!
@@ -161,6 +162,45 @@ open Zrnt.Schema.Facts in
 example : htOk 96 (.node (.node (.leaf 0 32) (.leaf 32 64)) (.leaf 64 96)) = false ∧
     htOk 48 (.node (.leaf 32 48) (.leaf 0 32)) = false := by decide +kernel
 
+/-! ## ztyp's packing helpers at the level of bytes
+
+The bit fields, byte lists and integer lists of zrnt are hashed by ztyp helpers that work on the raw Go
+representation (`[]byte`, resp. a `func(i) uint64`). `Zrnt.SSZ.Impl` models each helper at that level — chunking of
+the raw bytes, the masked delimiter bit, the chunk limit computed with shifts, the mixed-in length read off the raw
+bytes — and the theorems below identify them with `htr` on the encoding of every value. These are the `root`
+functions `checkType_sound_bitfield` / `_leaf` / `_vector` / `_list` (C04) attach to the rows that call them. -/
+
+/-- **`BitListHTR(bits, limit)`**: on the raw bytes of any bitlist (data bits, delimiter bit, zero padding) — length
+from `BitlistLen` (position of the highest set bit of the last byte), payload cut to `ceil(len/8)` bytes with the
+delimiter bit cleared, chunk limit `(limit + 255) >> 8`, length mixed in — is `hash_tree_root` of `Bitlist[limit]`. -/
+theorem bitlist_htr_bytes (H : Hash2) (lim : Nat) (bits : List Bool) :
+    goBitListRoot H lim (encode (.bitlist lim) (.bits bits)) = htr H (.bitlist lim) (.bits bits) :=
+  bitListRoot_spec H lim bits
+
+/-- **`BitVectorHTR(bits)`**: `Merkleize` over `ceil(len(bits)/32)` chunks of the raw bytes is `hash_tree_root` of
+`Bitvector[n]` (whose chunk count is `ceil(n/256)`). -/
+theorem bitvector_htr_bytes (H : Hash2) (n : Nat) (bits : List Bool) :
+    goBytesRoot H (encode (.bitvector n) (.bits bits)) = htr H (.bitvector n) (.bits bits) :=
+  bytesRoot_bitvector H n bits
+
+/-- **`ByteListHTR(values, limit)`**: chunk limit `(limit + 31) / 32`, byte length mixed in. -/
+theorem bytelist_htr_bytes (H : Hash2) (lim : Nat) (raw : Bytes) :
+    goByteListRoot H lim raw = htr H (.byteList lim) (.bytes raw) :=
+  byteListRoot_spec H lim raw
+
+/-- **`Uint64ListHTR(value, length, limit)`**: chunk `i` = items `4i..4i+3` (below `length`) little-endian in a zeroed
+root, `(length + 3) >> 2` chunks, chunk limit `(limit + 3) >> 2`, `length` mixed in — is `hash_tree_root` of
+`List[uint64, limit]`; in particular the chunks are `pack` of the serialization. -/
+theorem uint64list_htr_chunks (H : Hash2) (lim : Nat) (ns : List Nat) :
+    goUint64Chunks ns = pack (ns.flatMap (natToLE 8)) ∧
+    goUint64ListRoot H lim ns = htr H (.list (.uint 8) lim) (.seq (ns.map .num)) :=
+  ⟨uint64Chunks_eq_pack ns, uint64ListRoot_spec H lim ns⟩
+
+/-- **`Uint64VectorHTR(value, length)`** likewise, without length mix-in. -/
+theorem uint64vector_htr_chunks (H : Hash2) (n : Nat) (ns : List Nat) :
+    goUint64VectorRoot H n ns = htr H (.vector (.uint 8) n) (.seq (ns.map .num)) :=
+  uint64VectorRoot_spec H n ns
+
 /-! ## The three hand-built backings denote the tree of the typed value
 
 zrnt installs three subtrees without going through the typed view API: `SeedRandao` (all mixes = the seed),
@@ -233,5 +273,11 @@ example : ([[1], [2], [3]] : List Chunk).length ≤ 2 ^ 2 := by decide
 example : (CTree.build xorH 2 [[1], [2], [3], [4]]).Valid xorH := build_valid _ _ _
 example : ((CTree.build xorH 2 [[1], [2], [3], [4]]).setLeaf xorH [true, false] [9]).leaves = [[1], [2], [9], [4]] := by
   decide
+
+/-- the byte-level bitlist root on concrete raw bytes: 9 bits `1,0,1,0,0,0,0,0,1` + delimiter = `0x05 0x03` -/
+example : goBitlistLen [0x05, 0x03] = 9 ∧ goBitlistPayload [0x05, 0x03] = [0x05, 0x01] := by decide
+/-- a multiple of 8 bits: the delimiter byte disappears from the payload -/
+example : goBitlistLen [0xff, 0x01] = 8 ∧ goBitlistPayload [0xff, 0x01] = [0xff] := by decide
+example : (goUint64Chunks [1, 2, 3, 4, 5]).length = 2 := by decide
 
 end Zrnt.Proofs.C05
